@@ -240,6 +240,7 @@ class _AsyncFileReader(_UnicodeReader[AnyStr]):
         self._bufsize = bufsize
         self._datatype = datatype
         self._paused = False
+        self._feed_task: Optional['asyncio.Task[None]'] = None
 
     async def _feed(self) -> None:
         """Feed file data"""
@@ -257,7 +258,9 @@ class _AsyncFileReader(_UnicodeReader[AnyStr]):
     def feed(self) -> None:
         """Start feeding file data"""
 
-        self._conn.create_task(self._feed())
+        # A feed task paused while waiting for data continues when resumed
+        if not self._feed_task or self._feed_task.done():
+            self._feed_task = self._conn.create_task(self._feed())
 
     def pause_reading(self) -> None:
         """Pause reading from the file"""
@@ -548,6 +551,7 @@ class _StreamReader(_UnicodeReader[AnyStr]):
         self._bufsize = bufsize
         self._datatype = datatype
         self._paused = False
+        self._feed_task: Optional['asyncio.Task[None]'] = None
 
     async def _feed(self) -> None:
         """Feed stream data"""
@@ -565,7 +569,9 @@ class _StreamReader(_UnicodeReader[AnyStr]):
     def feed(self) -> None:
         """Start feeding stream data"""
 
-        self._conn.create_task(self._feed())
+        # A feed task paused while waiting for data continues when resumed
+        if not self._feed_task or self._feed_task.done():
+            self._feed_task = self._conn.create_task(self._feed())
 
     def pause_reading(self) -> None:
         """Pause reading from the stream"""
